@@ -14,7 +14,7 @@ from sim.runner import RunResult, Violation
 PROP = 'C16'
 
 CRASH_TEMPLATES = ['wraps', 'wraps_annot', 'sigattr', 'fwd', 'meth', 'mod', 'deco',
-                   'asforged', 'comb', 'hostile', 'builtin']
+                   'asforged', 'comb', 'hostile', 'builtin', 'observed', 'instdep']
 
 ENTRIES = ['sigtools.signature', 'sigtools.signature(auto=False)', 'signatures.signature',
            'inspect.signature', 'specifiers.forwards']
